@@ -13,3 +13,11 @@ Definition move_of (m : Ply) : Move :=
    clock carried by the last undo record, the move number *)
 Definition core (b : Board) : PBB * Color * option nat * Rights * N * N :=
   (bbs b, current_turn b, ep_file b, p_rights (last_ply b), p_halfmove (last_ply b), Board.fullmove b).
+
+(* the flags the engine stores in a move agree with the rules' classification of that move *)
+Definition flags_ok (b : Board) (m : Ply) : bool :=
+  let p := abs b in let mv := move_of m in
+  Bool.eqb (p_castles m) (is_castle (cells p) mv)
+  && Bool.eqb (p_ep m) (is_ep p mv)
+  && Bool.eqb (p_dpp m) (is_double_push (cells p) mv)
+  && Bool.eqb (is_capture m) (is_capture_move p mv).
